@@ -131,6 +131,38 @@ theorem construct_sorted : ∀ (f : Nat) (t : List Nat) (s : St), Valid t → t.
       have := hv.pos
       omega
 
+/-- **C03 (e)**: induced sorting from correctly sorted LMS suffixes gives the sorted suffix permutation -/
+theorem induced_sort_suffix (t : List Nat) (hv : Valid t) (lms : List Nat) (hl : LmsSorted t lms) :
+    SuffixSorted t (calcPosRun t (tyOf t) lms).pos := by
+  obtain ⟨hll, hsorted⟩ := hl
+  by_cases h2 : 2 ≤ t.length
+  · apply suffixSorted_of_sdone
+    exact induced_sort t hv h2 (sufR t) (sufR t) (indRel_suf t hv) (stepL_suf t) (indRel_suf t hv) (stepS_suf t)
+      (fun _ _ _ _ _ _ h => h) lms hll
+      (List.Pairwise.imp (S := fun p q => sym t p = sym t q → sufR t p q) (fun h _ => h) hsorted)
+  · have hp := calcPos_perm t hv lms hll
+    refine ⟨hp, pairwise_of_length_le_one _ _ ?_⟩
+    have := hp.length_eq
+    rw [List.length_range] at this
+    have := hv.pos
+    omega
+
+/-- Boolean test for `Valid` (for examples) -/
+def validB (t : List Nat) : Bool :=
+  decide (0 < t.length) &&
+  (List.range (t.length - 1)).all (fun i => decide (sym t (t.length - 1) < sym t i)) &&
+  (List.range (maxSucc t)).all (fun c => t.contains c)
+
+theorem valid_of_validB (t : List Nat) (h : validB t = true) : Valid t := by
+  unfold validB at h
+  simp only [Bool.and_eq_true, decide_eq_true_eq, List.all_eq_true, List.mem_range] at h
+  obtain ⟨⟨h1, h2⟩, h3⟩ := h
+  refine ⟨h1, fun i hi => h2 i (by omega), ?_⟩
+  intro c x hx hcx
+  have := lt_maxSucc_of_mem t x hx
+  have := h3 c (by omega)
+  simpa using this
+
 theorem suffixArrayInt_sorted (t : List Nat) (hv : Valid t) : SuffixSorted t (suffixArrayInt t) :=
   construct_sorted t.length t (St.new t.length) hv (Nat.le_refl _) (by simp [St.new])
 
